@@ -593,7 +593,8 @@ class Folder:
         if module == "os.path" or (module == "os" and name == "path"):
             return Opaque(module + "." + name)
         if module == "types" and name == "CodeType":
-            return Opaque("types.CodeType")
+            import types
+            return types.CodeType
         if module == "collections" and name == "namedtuple":
             import collections
             return collections.namedtuple
